@@ -135,8 +135,8 @@ TOOL_DIMS = {"order": ["identity", "reversed", "rotated"],
              "output": ["complete", "truncated", "garbage", "none"],
              "ending": ["exit0", "exit3", "SIGKILL", "SIGTERM", "SIGSEGV"],
              "vol": ["small", "bigout", "bigerr", "bigboth"]}
-HANG_AFTER = 12.0   # seconds after which a call that should return is recorded as "Hang"
-LONG_TIMEOUT = 10.0  # the timeout of "join_T"
+HANG_AFTER = 20.0   # seconds after which a call that should return is recorded as "Hang"
+LONG_TIMEOUT = 15.0  # the timeout of "join_T"
 
 
 class _Hang(BaseException):
@@ -727,6 +727,8 @@ def gen_trace(item):
             events.append(ev)
             if c == "start" and oc == "Rejected":
                 break  # failed launch: the run has ended, nothing further is specified
+            if oc == "Hang":
+                break  # already a disagreement; further calls would only hang again
     finally:
         h.close()
     return {"events": events, "kind": kind}
@@ -741,7 +743,8 @@ def gen_results(item):
     kind = item["kind"]
     events = []
     for _ in range(item["runs"]):
-        n = rng.choice([rng.randint(2, 9), rng.randint(10, 14), rng.randint(15, 40), rng.randint(95, 125)])
+        n = rng.choice([rng.randint(2, 9), rng.randint(10, 14), rng.randint(10, 14), rng.randint(15, 40),
+                        rng.randint(15, 40), rng.randint(95, 125)])
         if rng.random() < 0.06:
             n = rng.randint(2, 5)
             lens = [rng.randint(12000, 24000) for _ in range(n)]   # around / above the pipe size
@@ -782,9 +785,9 @@ def run(ctx):
 
     ctx.assumptions += [
         "the external program is fixtures/bin/fake_msa; its progress is triggered by the harness (no sleeps decide a verdict)",
-        "join() without timeout and join(timeout=10 s) are only called when the program has exited or only waits for a reader of its pipes (they would block otherwise)",
+        "join() without timeout and join(timeout=15 s) are only called when the program has exited or only waits for a reader of its pipes (they would block otherwise)",
         "join(timeout=0.03 s) is not called on a program that waits for a reader (a race the model does not decide)",
-        "a call that has not returned after 12 s although the program is not hanging is recorded as outcome 'Hang'",
+        "a call that has not returned after 20 s although the program is not hanging is recorded as outcome 'Hang'",
         "a program that announced (marker file) more output than a pipe holds counts as 'blocked' while it is alive",
         "after a failed launch only the clean-up obligations are specified, not the wrapper state",
         "a killed child that is a zombie of the calling process counts as gone (not running)",
@@ -793,10 +796,12 @@ def run(ctx):
     ]
     d = tlc.scratch_dir("c20")
     dotf = os.path.join(d, "g.dot")
+    # safety + liveness on the core behaviours (this graph is replayed in S2), safety on every
+    # combination of the behaviour dimensions, thorough: liveness on every combination too
     res = ctx.tlc("AppLifecycle", "MC.cfg", stage="S1", dump_dot=dotf, workers=1, coverage=False)
     ctx.tlc("AppLifecycle", "MC_all.cfg", stage="S1-all-tools", workers=8)
-    ctx.tlc("AppLifecycle", "MC_live.cfg" if ctx.quick else "MC_live_all.cfg", stage="S1-liveness", workers=4,
-            count=False)
+    if not ctx.quick:
+        ctx.tlc("AppLifecycle", "MC_live_all.cfg", stage="S1-liveness", workers=8, count=False)
     ctx.exhaustive = True
     g = dot.load(dotf)
     calls_seen = {}
@@ -849,10 +854,12 @@ def run(ctx):
     per_kind_pairs = {}
     for kind in KINDS:
         idx = list(range(len(paths)))
+        want = all_pairs
         if kind == "sim":
             # the simulated remote job has no pipes and no signals of its own
             idx = [i for i in idx if states[ids[paths[i][0]]]["tool"]["vol"] == "small"]
-        elif ctx.quick:
+            want = set().union(*[pkeys[i] for i in idx])
+        if ctx.quick:
             # every (state, call) pair on every real wrapper class: greedy cover, long paths first
             ctx.rng.shuffle(idx)
             idx.sort(key=lambda i: -len(pkeys[i]))
@@ -861,9 +868,10 @@ def run(ctx):
                 if pkeys[i] - got:
                     sel.append(i)
                     got |= pkeys[i]
-            if got != all_pairs:
-                raise Vacuity(f"S2 {kind}: {len(got)} of {len(all_pairs)} (state, call) pairs selected")
-            rest = [i for i in idx if i not in set(sel)]
+            if got != want:
+                raise Vacuity(f"S2 {kind}: {len(got)} of {len(want)} (state, call) pairs selected")
+            chosen = set(sel)
+            rest = [i for i in idx if i not in chosen]
             sel += ctx.rng.sample(rest, min(len(rest), 60))
             idx = sel
         per_kind_pairs[kind] = len(set().union(*[pkeys[i] for i in idx]))
@@ -972,7 +980,7 @@ def run(ctx):
 
     binding_selftest(ctx, traces, corrupt)
     # ---- S3 of the data half -----------------------------------------------------------
-    nrun = 120 if ctx.quick else 3000
+    nrun = 96 if ctx.quick else 1500
     per = 4
     gitems = [{"seed": ctx.rng.randrange(1 << 30), "kind": real[k % len(real)], "runs": per}
               for k in range(nrun // per)]
@@ -1020,7 +1028,7 @@ def run(ctx):
             return e["order"] != list(reversed(e["order"]))
         return False
 
-    binding_selftest(ctx, [[{k: e[k] for k in keep}] for (e,) in rtraces], corrupt_rows,
+    binding_selftest(ctx, [[{k: e[k] for k in keep}] for (e,) in rtraces if e["join"] == "ok"], corrupt_rows,
                      module="ResultsTrace", cfg="ResultsTrace.cfg")
 
 
@@ -1064,7 +1072,7 @@ def replay(record):
 
 
 MANIFEST = {
-    "technique": "TLA+ life-cycle state machine (specs/C20) model-checked by TLC incl. liveness; every transition replayed against the real wrappers with real child processes; recorded call sequences validated by TLC",
-    "level_text": "TLC explores the complete reachable state space of the wrapper life cycle (14 public calls + the environment step x 5 tool behaviours; closes at depth 5) and checks RunEndsClean, ResultsOnlyAfterJoin, refusal-is-a-no-op, legal-iff-allowed and, under weak fairness, that a started program eventually exits. Every transition of that graph is then executed against ClustalOmegaApp, MuscleApp, Muscle5App, MafftApp (real child processes of a fake tool whose exit the harness triggers) and a minimal Application subclass, comparing wrapper state, outcome class, child-process liveness, temp files, working directory, number of clean-up runs and result values after each call; random longer call sequences are validated by TLC against the same operators.",
-    "level_note": "The external programs are replaced by fixtures/bin/fake_msa; timing is controlled by trigger files. Wrapper state is read from the private flag (the public query is its own action). After a failed launch only clean-up obligations are compared. Trusted: TLC, /proc/<pid>/stat for process liveness.",
+    "technique": "TLA+ life-cycle state machine (specs/C20) model-checked by TLC incl. liveness, plus a TLA+ specification of the result mapping (rows mapped back to the input order by header number); every (state, call) pair / transition replayed against the real wrappers with real child processes; TLC-generated result cases run through the real wrappers; recorded call sequences and recorded runs validated by TLC",
+    "level_text": "TLC explores the complete reachable state space of the wrapper life cycle (15 public calls + two environment steps x 122 behaviours of the external program: launch failure, row order, complete / truncated / garbage / no output, exit 0 / failing exit / death by SIGKILL, SIGTERM, SIGSEGV, output volume below / above the OS pipe size on STDOUT / STDERR; closes at depth 5) and checks RunEndsClean, ResultsOnlyAfterJoin, ResultsOnlyOfSuccess, refusal-is-a-no-op, legal-iff-allowed and, under weak fairness, that a started program leaves its working phase and that a program waiting for a reader is ended by join. The graph of 16 core behaviours is executed against ClustalOmegaApp, MuscleApp, Muscle5App, MafftApp (real child processes of a fake tool whose progress the harness triggers) and a minimal Application subclass: quick covers every (state, call) pair on every class, thorough every transition; wrapper state, outcome class, child-process liveness, temp files, working directory, number of clean-up runs and result values are compared after each call. The result mapping is specified on values (MsaResults.tla) and checked for 2..101 (thorough ..120) sequences x 6 emission orders x length profiles x padding x sequence type, incl. alignments larger than a pipe. Random longer call sequences and random runs (up to 125 sequences) are validated by TLC against the same operators.",
+    "level_note": "The external programs are replaced by fixtures/bin/fake_msa; timing is controlled by trigger / marker files; a call that does not return within 20 s is the outcome Hang. Wrapper state is read from the private flag (the public query is its own action). After a failed launch only clean-up obligations are compared. Trusted: TLC, /proc/<pid>/stat for process liveness, the fake program's own copy of what it emitted (cross-checked against the specification's environment in S2).",
 }
